@@ -52,9 +52,9 @@ func SelectVersion(
 
 func versionAtLeast(version, minVersion protocol.Version) bool {
 	// DTLS encodes newer versions as numerically smaller Minor bytes.
-	return version.Minor <= minVersion.Minor
+	return version.Major == minVersion.Major && version.Minor <= minVersion.Minor
 }
 
 func versionAtMost(version, maxVersion protocol.Version) bool {
-	return version.Minor >= maxVersion.Minor
+	return version.Major == maxVersion.Major && version.Minor >= maxVersion.Minor
 }
